@@ -17,7 +17,46 @@ use std::io::Write;
 use std::sync::Arc;
 
 pub const HDR: usize = 11;
-pub const MAGIC: [u8; 2] = [73, 43]; // OTHER_MAGIC (AutomatedTesting)
+pub const OTHER_MAGIC: [u8; 2] = [73, 43];
+pub const TESTNET_MAGIC: [u8; 2] = [83, 59];
+pub const MAINNET_MAGIC: [u8; 2] = [97, 61];
+
+/// The network of this process as Codec.tla names it, and its two magic bytes (msg.rs).
+pub fn net_name() -> &'static str {
+	match global::get_chain_type() {
+		global::ChainTypes::Mainnet => "main",
+		global::ChainTypes::Testnet => "test",
+		_ => "other",
+	}
+}
+pub fn magic_of(net: &str) -> [u8; 2] {
+	match net {
+		"main" => MAINNET_MAGIC,
+		"test" => TESTNET_MAGIC,
+		_ => OTHER_MAGIC,
+	}
+}
+/// The two magic bytes a frame carries (`mv` of Codec.tla).
+pub fn magic_bytes(f: &Frame, fi: usize) -> [u8; 2] {
+	let m = magic_of(net_name());
+	match (f.magic, f.mv.as_str()) {
+		(true, _) => m,
+		(_, "main") | (_, "test") | (_, "other") => magic_of(&f.mv),
+		(_, "b1") => [m[0] ^ 0x20, m[1]],
+		(_, "b12") => [m[0] ^ 0x04, m[1] ^ 0x10],
+		(_, "b2") => [m[0], m[1] ^ 0x40],
+		// frames drawn by the harness itself (direction B): alternate
+		_ => {
+			if fi % 2 == 0 {
+				[m[0], m[1] ^ 0x40]
+			} else if m == MAINNET_MAGIC {
+				TESTNET_MAGIC
+			} else {
+				MAINNET_MAGIC
+			}
+		}
+	}
+}
 
 #[derive(Clone, Debug)]
 pub struct Frame {
@@ -31,6 +70,34 @@ pub struct Frame {
 	pub items: usize,
 	pub extra: usize,
 	pub att: usize,
+	/// sizes of the items, repeated cyclically (headers: header sizes; counted: the item size)
+	pub mix: Vec<usize>,
+	/// (built) protocol version the body is serialised with, composition of the object
+	pub ver: u32,
+	pub obj: Value,
+	/// which magic bytes the frame carries: ok | main | test | other | b1 | b2 | b12
+	pub mv: String,
+}
+
+impl Default for Frame {
+	fn default() -> Frame {
+		Frame {
+			k: String::new(),
+			t: 0,
+			magic: true,
+			len: 0,
+			body: 0,
+			need: 0,
+			count: 0,
+			items: 0,
+			extra: 0,
+			att: 0,
+			mix: vec![],
+			ver: 0,
+			obj: Value::Null,
+			mv: String::new(),
+		}
+	}
 }
 
 impl Frame {
@@ -39,7 +106,18 @@ impl Frame {
 			k: v["k"].as_str().unwrap().to_string(),
 			t: v["t"].as_u64().unwrap() as u8,
 			magic: v["magic"].as_bool().unwrap(),
-			len: v["len"].as_u64().unwrap(),
+			// an announced length beyond TLC's integers travels as a decimal string
+			len: match v["wlen"].as_str() {
+				Some(w) if !w.is_empty() => w.parse::<u64>().expect("wlen"),
+				_ => v["len"].as_u64().unwrap(),
+			},
+			mix: v["mix"]
+				.as_array()
+				.map(|a| a.iter().map(|x| x.as_u64().unwrap() as usize).collect())
+				.unwrap_or_default(),
+			ver: v["ver"].as_u64().unwrap_or(0) as u32,
+			obj: v["obj"].clone(),
+			mv: v["mv"].as_str().unwrap_or("").to_string(),
 			body: v["body"].as_u64().unwrap() as usize,
 			need: v["need"].as_i64().unwrap(),
 			count: v["count"].as_u64().unwrap(),
@@ -50,7 +128,7 @@ impl Frame {
 	}
 	pub fn label(&self) -> String {
 		format!(
-			"{}:t{}:len{}:body{}:count{}:items{}:extra{}:att{}{}",
+			"{}:t{}:len{}:body{}:count{}:items{}:extra{}:att{}{}{}{}",
 			self.k,
 			self.t,
 			self.len,
@@ -59,8 +137,21 @@ impl Frame {
 			self.items,
 			self.extra,
 			self.att,
-			if self.magic { "" } else { ":badmagic" }
+			if self.magic { String::new() } else { format!(":badmagic({})", self.mv) },
+			if self.mix.len() > 1 { format!(":mix{:?}", self.mix) } else { String::new() },
+			if self.k == "built" { format!(":{}@v{}", self.obj["kind"].as_str().unwrap_or("?"), self.ver) } else { String::new() },
 		)
+	}
+	/// Codec.tla ItemSize / ItemEnd: size of the j-th item (0-based here) and the offset behind the first j items
+	pub fn item_size(&self, j: usize) -> usize {
+		if self.mix.is_empty() {
+			257
+		} else {
+			self.mix[j % self.mix.len()]
+		}
+	}
+	pub fn item_end(&self, j: usize) -> usize {
+		(0..j).map(|i| self.item_size(i)).sum()
 	}
 }
 
@@ -86,40 +177,57 @@ pub fn hx(h: &Hash) -> String {
 	hex(h.as_bytes())
 }
 
-/// Valid (PoW-verified) block headers for the AutomatedTesting parameters, all distinct.
+/// Valid (PoW-verified) block headers for the AutomatedTesting parameters, all distinct: `n` of the
+/// minimum size (10 edge bits, 257 bytes) and a few at 11 and 12 edge bits (258 and 259 bytes; a
+/// proof of work takes edge_bits x proof size bits).  Empty on the networks whose proof of work
+/// cannot be produced here.
 pub struct Pool {
 	pub headers: Vec<BlockHeader>,
 	pub raw: Vec<Vec<u8>>,
 	pub hashes: Vec<String>,
+	/// indices into the three vectors by serialised size
+	pub by_size: std::collections::BTreeMap<usize, Vec<usize>>,
 }
 
 impl Pool {
 	pub fn mine(n: usize) -> Pool {
-		let mut headers = vec![];
-		let mut raw = vec![];
-		let mut hashes = vec![];
-		for i in 0..n as u64 {
-			let mut h = BlockHeader::default();
-			h.height = i % 3; // header version 1 on AutomatedTesting
-			h.prev_hash = Hash::from_vec(&[(i + 1) as u8; 32]);
-			h.pow.nonce = i * 1000;
-			h.pow.total_difficulty = Difficulty::from_num(10 + i);
-			pow::pow_size(
-				&mut h,
-				Difficulty::min_dma(),
-				global::proofsize(),
-				global::min_edge_bits(),
-			)
-			.expect("mine header");
-			assert!(pow::verify_size(&h).is_ok());
-			raw.push(ser::ser_vec(&h, ProtocolVersion(1)).expect("ser header"));
-			hashes.push(hx(&h.hash()));
-			headers.push(h);
+		let mut p = Pool {
+			headers: vec![],
+			raw: vec![],
+			hashes: vec![],
+			by_size: Default::default(),
+		};
+		if net_name() != "other" {
+			return p;
 		}
-		Pool {
-			headers,
-			raw,
-			hashes,
+		let min = global::min_edge_bits();
+		let larger = if n >= 16 { 8 } else { 3 };
+		for (bits, count) in [(min, n), (min + 1, larger), (min + 2, larger)] {
+			for i in 0..count as u64 {
+				let mut h = BlockHeader::default();
+				h.height = i % 3; // header version 1 on AutomatedTesting
+				h.prev_hash = Hash::from_vec(&[(i + 1) as u8; 32]);
+				h.pow.nonce = i * 1000 + (bits as u64) * 1_000_000;
+				h.pow.total_difficulty = Difficulty::from_num(10 + i);
+				pow::pow_size(&mut h, Difficulty::min_dma(), global::proofsize(), bits).expect("mine header");
+				// (the solver labels every proof with the minimum edge bits)
+				h.pow.proof.edge_bits = bits;
+				assert!(pow::verify_size(&h).is_ok());
+				let raw = ser::ser_vec(&h, ProtocolVersion(1)).expect("ser header");
+				p.by_size.entry(raw.len()).or_default().push(p.raw.len());
+				p.raw.push(raw);
+				p.hashes.push(hx(&h.hash()));
+				p.headers.push(h);
+			}
+		}
+		p
+	}
+
+	/// index of the header used for item j of frame fi when the model asks for `size` bytes
+	pub fn pick(&self, size: usize, fi: usize, j: usize) -> usize {
+		match self.by_size.get(&size) {
+			Some(v) if !v.is_empty() => v[(fi * 5 + j) % v.len()],
+			_ => panic!("no header of {} bytes in the pool", size),
 		}
 	}
 }
@@ -135,6 +243,16 @@ fn hash_of(fi: usize, j: usize) -> Hash {
 fn addr_of(fi: usize, j: usize) -> PeerAddr {
 	let s = format!("10.{}.{}.{}:{}", fi % 200, (j / 250) % 250, j % 250 + 1, 3000 + j);
 	PeerAddr(s.parse().unwrap())
+}
+
+fn addr6_of(fi: usize, j: usize) -> PeerAddr {
+	let s = format!("[2001:db8:{:x}::{:x}:{:x}]:{}", fi % 200 + 1, j / 250 + 1, j % 250 + 1, 3000 + j);
+	PeerAddr(s.parse().unwrap())
+}
+
+/// the entries of a PeerAddrs frame are IPv6 when the model gives them 19 bytes
+fn v6(f: &Frame) -> bool {
+	f.mix.first() == Some(&19)
 }
 
 fn be16(v: u16) -> [u8; 2] {
@@ -174,11 +292,20 @@ fn content(f: &Frame, fi: usize, pool: &Pool) -> (Vec<u8>, String, Vec<String>) 
 			b.extend_from_slice(&(f.count as u32).to_be_bytes());
 			let mut d = vec![];
 			for j in 0..items {
-				let a = addr_of(fi, j);
-				if let std::net::SocketAddr::V4(v4) = a.0 {
-					b.push(0);
-					b.extend_from_slice(&v4.ip().octets());
-					b.extend_from_slice(&be16(v4.port()));
+				let a = if v6(f) { addr6_of(fi, j) } else { addr_of(fi, j) };
+				match a.0 {
+					std::net::SocketAddr::V4(v4) => {
+						b.push(0);
+						b.extend_from_slice(&v4.ip().octets());
+						b.extend_from_slice(&be16(v4.port()));
+					}
+					std::net::SocketAddr::V6(a6) => {
+						b.push(1);
+						for seg in a6.ip().segments().iter() {
+							b.extend_from_slice(&be16(*seg));
+						}
+						b.extend_from_slice(&be16(a6.port()));
+					}
 				}
 				if (j as u64) < f.count {
 					d.push(format!("{}", a.0));
@@ -200,7 +327,7 @@ fn content(f: &Frame, fi: usize, pool: &Pool) -> (Vec<u8>, String, Vec<String>) 
 			digest = d.join(",");
 		}
 		8 => {
-			let i = fi % pool.raw.len();
+			let i = pool.pick(257, fi, 0);
 			b.extend_from_slice(&pool.raw[i]);
 			digest = pool.hashes[i].clone();
 		}
@@ -208,7 +335,7 @@ fn content(f: &Frame, fi: usize, pool: &Pool) -> (Vec<u8>, String, Vec<String>) 
 			let items = if f.k == "raw" { f.count as usize } else { f.items };
 			b.extend_from_slice(&be16(f.count as u16));
 			for j in 0..items {
-				let i = (fi * 5 + j) % pool.raw.len();
+				let i = pool.pick(f.item_size(j), fi, j);
 				b.extend_from_slice(&pool.raw[i]);
 				hashes.push(pool.hashes[i].clone());
 			}
@@ -255,6 +382,26 @@ fn content(f: &Frame, fi: usize, pool: &Pool) -> (Vec<u8>, String, Vec<String>) 
 
 /// Render a frame: 11-byte header (possibly malformed) + body bytes present in the stream + attachment.
 pub fn render(f: &Frame, fi: usize, pool: &Pool) -> Sent {
+	if f.k == "built" {
+		// serialised by the node's own writer at the version of the connection; a failure shows as a
+		// layout that differs from the model's
+		let (bytes, digest) = match crate::objects::built_msg(f.t, &f.obj, f.ver) {
+			Ok((m, d)) => {
+				let mut out: Vec<u8> = vec![];
+				match grin_p2p::msg::write_message(&mut out, &m, Arc::new(Tracker::new())) {
+					Ok(()) => (out, d),
+					Err(e) => (vec![], format!("write_message: {:?}", e)),
+				}
+			}
+			Err(e) => (vec![], e),
+		};
+		return Sent {
+			bytes,
+			digest,
+			hashes: vec![],
+			att: vec![],
+		};
+	}
 	let (mut c, digest, hashes) = content(f, fi, pool);
 	// body present in the stream: honest prefix, cut or padded to `body` bytes
 	if c.len() > f.body {
@@ -264,13 +411,7 @@ pub fn render(f: &Frame, fi: usize, pool: &Pool) -> Sent {
 		c.push(0xff);
 	}
 	let mut bytes = Vec::with_capacity(HDR + c.len() + f.att);
-	if f.magic {
-		bytes.extend_from_slice(&MAGIC);
-	} else if fi % 2 == 0 {
-		bytes.extend_from_slice(&[MAGIC[0], MAGIC[1] ^ 0x40]);
-	} else {
-		bytes.extend_from_slice(&[97, 61]); // mainnet magic
-	}
+	bytes.extend_from_slice(&magic_bytes(f, fi));
 	bytes.push(f.t);
 	bytes.extend_from_slice(&f.len.to_be_bytes());
 	bytes.extend_from_slice(&c);
@@ -337,7 +478,7 @@ pub fn real_writer_bytes(
 		6 => Msg::new(
 			Type::PeerAddrs,
 			PeerAddrs {
-				peers: (0..f.items).map(|j| addr_of(fi, j)).collect(),
+				peers: (0..f.items).map(|j| if v6(f) { addr6_of(fi, j) } else { addr_of(fi, j) }).collect(),
 			},
 			v,
 		)
@@ -350,12 +491,12 @@ pub fn real_writer_bytes(
 			v,
 		)
 		.map_err(e),
-		8 => Msg::new(Type::Header, pool.headers[fi % pool.headers.len()].clone(), v).map_err(e),
+		8 => Msg::new(Type::Header, pool.headers[pool.pick(257, fi, 0)].clone(), v).map_err(e),
 		9 => Msg::new(
 			Type::Headers,
 			Headers {
 				headers: (0..f.items)
-					.map(|j| pool.headers[(fi * 5 + j) % pool.headers.len()].clone())
+					.map(|j| pool.headers[pool.pick(f.item_size(j), fi, j)].clone())
 					.collect(),
 			},
 			v,
@@ -467,24 +608,30 @@ pub fn describe(m: Message) -> (u8, u64, String) {
 		}
 		Message::Headers(d) => (9, d.headers.len() as u64, String::new()),
 		Message::GetBlock(h) => (10, 0, hx(&h)),
-		Message::Block(_) => (11, 0, String::new()),
+		Message::Block(b) => {
+			let b: grin_core::core::Block = b.into();
+			(11, 0, crate::objects::digest_of(&b))
+		}
 		Message::GetCompactBlock(h) => (12, 0, hx(&h)),
-		Message::CompactBlock(_) => (13, 0, String::new()),
-		Message::StemTransaction(_) => (14, 0, String::new()),
-		Message::Transaction(_) => (15, 0, String::new()),
+		Message::CompactBlock(b) => {
+			let b: grin_core::core::CompactBlock = b.into();
+			(13, 0, crate::objects::digest_of(&b))
+		}
+		Message::StemTransaction(tx) => (14, 0, crate::objects::digest_of(&tx)),
+		Message::Transaction(tx) => (15, 0, crate::objects::digest_of(&tx)),
 		Message::TxHashSetRequest(r) => (16, 0, format!("{}:{}", hx(&r.hash), r.height)),
 		Message::TxHashSetArchive(a) => (17, 0, format!("{}:{}:{}", hx(&a.hash), a.height, a.bytes)),
 		Message::BanReason(b) => (18, 0, format!("{}", b.ban_reason as i32)),
 		Message::GetTransaction(h) => (19, 0, hx(&h)),
 		Message::TransactionKernel(h) => (20, 0, hx(&h)),
 		Message::GetOutputBitmapSegment(r) => (21, 0, seg(&r)),
-		Message::OutputBitmapSegment(_) => (22, 0, String::new()),
+		Message::OutputBitmapSegment(r) => (22, 0, crate::objects::digest_of(&r)),
 		Message::GetOutputSegment(r) => (23, 0, seg(&r)),
-		Message::OutputSegment(_) => (24, 0, String::new()),
+		Message::OutputSegment(r) => (24, 0, crate::objects::digest_of(&r)),
 		Message::GetRangeProofSegment(r) => (25, 0, seg(&r)),
-		Message::RangeProofSegment(_) => (26, 0, String::new()),
+		Message::RangeProofSegment(r) => (26, 0, crate::objects::digest_of(&r)),
 		Message::GetKernelSegment(r) => (27, 0, seg(&r)),
-		Message::KernelSegment(_) => (28, 0, String::new()),
+		Message::KernelSegment(r) => (28, 0, crate::objects::digest_of(&r)),
 		Message::Attachment(_, _) => (255, 0, String::new()),
 	}
 }
@@ -497,11 +644,28 @@ fn seg(r: &SegmentRequest) -> String {
 pub fn consts() -> i32 {
 	let pool = Pool::mine(1);
 	let mbs = global::max_block_weight() / grin_core::consensus::OUTPUT_WEIGHT * 708;
+	// the magic bytes the node's own writer puts on the wire on this network
+	let mut hdr: Vec<u8> = vec![];
+	let ping = Msg::new(
+		Type::Ping,
+		Ping {
+			total_difficulty: Difficulty::from_num(1),
+			height: 1,
+		},
+		ProtocolVersion(1),
+	);
+	if let Ok(m) = ping {
+		let _ = grin_p2p::msg::write_message(&mut hdr, &m, Arc::new(Tracker::new()));
+	}
 	println!(
 		"{}",
 		json!({
 			"HDR": grin_p2p::msg::MsgHeader::LEN,
-			"BH": pool.raw[0].len(),
+			"net": net_name(),
+			"magic_written": hdr.iter().take(2).cloned().collect::<Vec<u8>>(),
+			"magic_model": magic_of(net_name()).to_vec(),
+			"header_sizes": pool.by_size.keys().cloned().collect::<Vec<usize>>(),
+			"BH": pool.raw.first().map(|r| r.len()).unwrap_or(0),
 			"BHMAX": global::header_size_bytes(63),
 			"MaxBlockSize": mbs,
 			"MAX_BLOCK_HEADERS": grin_p2p::MAX_BLOCK_HEADERS,
